@@ -452,6 +452,46 @@ def gen_joiner_prog(pid, rng):
     return p
 
 
+def gen_capture_matrix(pid0):
+    """Systematic capture placements: every operator x {top level, inside `=> >>>`} x {step 0, step 1}, in the second
+    branch of a two-branch program whose first branch has ordinary probes and a capture of its own."""
+    progs = []
+    pid = pid0
+    for opt in (False, True):
+        ops = ["Map", "AndThen", "OrElse", "Inspect", "Then", "Or"] + (["Filter"] if opt else ["MapErr"])
+        for op in ops:
+            for inside in (False, True):
+                for step in (0, 1):
+                    p = Prog(pid)
+                    p.opt = opt
+                    p.tags = ["rand", "cap", "capmatrix"] + (["opt"] if opt else [])
+                    # branch 0: plain probes + one capture
+                    b0 = [[Act("Src", p.nid()), Act("Map", p.nid()), Act("Inspect", p.nid(), cap=p.nid())]]
+                    if step == 1:
+                        b0.append([Act("Map", p.nid()), Act("Then", p.nid(), cap=p.nid())])
+                    tgt = Act(op, p.nid())
+                    tgt.cap = p.nid()
+                    if inside:
+                        first = Act("ThenV", p.nid())
+                        first.cap = p.nid()
+                        holder = Act("WAndThen", 0, inner=[first, tgt], explicit_close=(pid % 2 == 0))
+                        acts = [holder, Act("Map", p.nid())]
+                    else:
+                        acts = [Act("Map", p.nid()), tgt, Act("Map", p.nid(), cap=p.nid())]
+                    b1 = [[Act("Src", p.nid(), cap=(p.nid() if pid % 3 == 0 else 0))]]
+                    if step == 0:
+                        b1[0] += acts
+                    else:
+                        b1[0].append(Act("Map", p.nid()))
+                        b1.append(acts)
+                    p.branches = [{"named": False, "mut": False, "steps": b0}, {"named": False, "mut": False, "steps": b1}]
+                    if op == "Or" or inside:
+                        pass  # sync-only by the usual rules (Or / capture inside a wrapper)
+                    progs.append((p, True))
+                    pid += 1
+    return progs
+
+
 def profiles(max_n, max_d):
     for n in range(1, max_n + 1):
         for prof in itertools.product(range(1, max_d + 1), repeat=n):
@@ -495,6 +535,8 @@ def build_corpus(tier, seed):
     for _ in range(nopt):
         progs.append((gen_opt_prog(pid, rng), False))
         pid += 1
+    cm = gen_capture_matrix(pid)
+    progs += cm
     return progs
 
 
